@@ -76,6 +76,7 @@ def cases(draw, tier):
 
 
 def evaluate(case):
+    import numpy
     dsw = import_dsw()
     kind, text, pad = case["kind"], case["seq"], case["pad"]
     base = 2 if kind == "bits" else 4
@@ -96,7 +97,7 @@ def evaluate(case):
     verbose = {"verbose": True} if (case.get("verbose") and kind == "bits") else {}
     shared_list = list(symbols)  # one list object handed to every call: it must come back unchanged
     to_number = (lambda **kw: dsw.bit_to_number(bit_array=shared_list, **dict(kw, **verbose))) if kind == "bits" else \
-        (lambda **kw: dsw.dna_to_number(dna_sequence=text, **kw))
+        (lambda **kw: dsw.dna_to_number(dna_sequence=numpy.str_(text) if case.get("np_width") else text, **kw))
     render = (lambda number, n: dsw.number_to_bit(decimal_number=number, bit_length=n)) if kind == "bits" else \
         (lambda number, n: dsw.number_to_dna(decimal_number=number, dna_length=n))
     as_str = lib_call(to_number, is_string=True)
